@@ -478,7 +478,7 @@ def method_ghosts():
             return b is a._orig
         return a is b
     return {"dict_key": lambda d, i: list(d)[i], "dict_wf": lambda d: True, "same_object": same_object,
-            "has_key": lambda d, k: k in d}
+            "has_key": lambda d, k: k in d, "mcall": lambda name, obj, *a: getattr(obj, name)(*a)}
 
 
 def run_method_scenarios(c, mod, clauses, stop_after=4):
@@ -488,11 +488,14 @@ def run_method_scenarios(c, mod, clauses, stop_after=4):
     wit, errs, n = [], [], 0
     for label, factory in c.scenarios(mod):
         n += 1
-        fn, args = factory()
+        made = factory()
+        fn, args = made[0], made[1]
+        extra_env = made[2] if len(made) > 2 else {}
         olds = {}
         env0 = native_env(mod)
         env0.update(ghost_env(6))
         env0.update(method_ghosts())
+        env0.update(extra_env)
         env0.update(args)
         coll = _OldCollector()
         trees = {}
